@@ -4,6 +4,7 @@ package main
 
 import (
 	"fmt"
+	"net/http"
 
 	"github.com/emicklei/go-restful/v3/zverif/vsched"
 
@@ -34,8 +35,8 @@ func c19Scenarios(tier string) []e3Scenario {
 			if tier != "thorough" && (i == 6 || j == 6 || i == 3 || j == 3) && i != j {
 				continue // quick: the nested-dispatch and 404 requests only against themselves
 			}
-			if tier != "thorough" && j >= 14 && i != j && i != 0 && i != 12 && !(i == 18 && j == 19) && !(i == 20 && j == 21) {
-				continue // quick: the XML entity, regex, custom-verb, tail-wildcard and panicking requests against themselves, the first GET and the negotiated entity; the two panicking requests and the two tenant requests against each other
+			if tier != "thorough" && j >= 14 && i != j && i != 0 && i != 12 && !(i == 18 && j == 19) && !(i == 20 && j == 21) && !(i == 16 && j == 23) {
+				continue // quick: the XML entity, regex, custom-verb, tail-wildcard and panicking requests against themselves, the first GET and the negotiated entity; the two panicking requests, the two tenant requests and the two custom-verb requests against each other
 			}
 			sets = append(sets, []int{i, j})
 		}
@@ -71,11 +72,16 @@ func c19Scenarios(tier string) []e3Scenario {
 					for k, i := range set {
 						k, hr := k, q[i].HTTP()
 						recs[k] = h.NewRec()
+						var w http.ResponseWriter = recs[k]
+						if q[i].Segs[len(q[i].Segs)-2] == "boom" {
+							// the recover handler's writes to the connection are scheduling points
+							w = &ptRec{Rec: recs[k]}
+						}
 						inst.Bodies = append(inst.Bodies, vsched.Body{Name: fmt.Sprint("q", i), Run: func() {
 							if serve {
-								c.ServeHTTP(recs[k], hr)
+								c.ServeHTTP(w, hr)
 							} else {
-								c.Dispatch(recs[k], hr)
+								c.Dispatch(w, hr)
 							}
 						}})
 					}
